@@ -106,7 +106,7 @@ func TestC16MuxerInputs(t *testing.T) {
 	defer rec.Flush()
 	rapid.Check(t, func(t *rapid.T) {
 		period, _, ops := genMuxHistory(t, muxProfile{maxOps: 25, writePacket: true, bigAF: true})
-		var buf bytes.Buffer
+		var buf cappedBuffer
 		m := astits.NewMuxer(context.Background(), &buf, astits.MuxerOptTablesRetransmitPeriod(period))
 		type watched struct {
 			what string
